@@ -775,7 +775,12 @@ fn oper_cfg(s: &mut S, c: &mut CfgSpec, prof: &mut Profile) {
         };
         let name = format!("op{}", i);
         let pw = format!("operpw{}", i);
-        c.opers.push(OperSpec { name: name.clone(), password: pw.clone(), mask });
+        c.opers.push(OperSpec { name: name.clone(), password: pw.clone(), mask: mask.clone() });
+        // the same [[operators]] entry written twice (identical copies, so that which of the two
+        // counts does not matter): the entries after it must still be found under their own names
+        if i == 0 && n == 2 && s.chance(20) {
+            c.opers.push(OperSpec { name: name.clone(), password: pw.clone(), mask });
+        }
         prof.oper_names.push((name.clone(), pw));
         // operator names are also nicknames users may take
         prof.nicks.push(name);
